@@ -97,7 +97,10 @@ class Leaf:
         r.leaf += 1
         n = r.leaf
         if n <= len(r.plan) and r.plan[n - 1] == 'err':
-            raise PlantedError(n)
+            e = PlantedError(n)
+            if NOTES[0]:
+                e.add_note('(note for planted %d)' % n)
+            raise e
         if n <= len(r.plan) and r.plan[n - 1] == 'alien':
             raise AlienError(n)
         if self.kind == 'new':
@@ -139,6 +142,14 @@ class Probe:
                 seen.append('M')
             except BadSpec:
                 seen.append('G')
+        # a reducer (Flatten) accumulates across items exactly when Group mode is in force here;
+        # anywhere else it reduces the target it is given
+        from glom import Flatten
+        try:
+            r = scope[GLOM]([[1], [2]], Flatten(), scope)
+            seen.append('reduce' if r == [1, 2] else 'aggregate')
+        except Exception as e:
+            seen.append('E:' + type(e).__name__)
         self.run.log.append({'p': list(self.path), 'what': 'mode', 'v': classify(seen), 'raw': repr(seen)})
         return target
 
@@ -147,13 +158,13 @@ class Probe:
 
 
 def classify(seen):
-    if seen == ['A', 'A', ['A'], {'k': 'A'}]:
+    if seen == ['A', 'A', ['A'], {'k': 'A'}, 'reduce']:
         return 'AUTO'
-    if seen == ['p', ('p',), ['p'], {'k': 'p'}]:
+    if seen == ['p', ('p',), ['p'], {'k': 'p'}, 'reduce']:
         return 'FILL'
-    if seen == ['M', 'M', 'M', 'M']:
+    if seen == ['M', 'M', 'M', 'M', 'reduce']:
         return 'MATCH'
-    if seen == ['G', 'G', 'G', 'G']:
+    if seen == ['G', 'G', 'G', 'G', 'aggregate']:
         return 'GROUP'
     return 'MIXED:' + repr(seen)
 
@@ -433,7 +444,16 @@ class BigTok(Tok):
         return 7
 
 
-def execute(tree, plan, caller_scope=None, hook=True, prebuilt=None, big_root=False, multiline_for=0, flavour='vars'):
+class BadLenTok(BigTok):
+    """... and whose __len__ fails (a closed / lazy collection)"""
+    def __len__(self):
+        raise RuntimeError('collection is closed')
+
+
+NOTES = [False]     # planted errors carry a PEP 678 note (a second line after 'Type: message')
+
+
+def execute(tree, plan, caller_scope=None, hook=True, prebuilt=None, big_root=False, multiline_for=0, flavour='vars', notes=False):
     """run the real library on the realisation of tree; returns dict(out, log, events, error).
     prebuilt: (spec, run, index) of an earlier execute() -- evaluates the SAME spec objects again"""
     if prebuilt is not None:
@@ -452,6 +472,7 @@ def execute(tree, plan, caller_scope=None, hook=True, prebuilt=None, big_root=Fa
         glom.core._verif_install(rec)
     Tok._cache.clear()
     MULTILINE_FOR[0] = multiline_for
+    NOTES[0] = notes
     kw = {}
     if caller_scope is not None:
         kw['scope'] = caller_scope
@@ -459,7 +480,7 @@ def execute(tree, plan, caller_scope=None, hook=True, prebuilt=None, big_root=Fa
         try:
             root = Tok((0,))
             if big_root:
-                root = object.__new__(BigTok)
+                root = object.__new__(BadLenTok if big_root == 'badlen' else BigTok)
                 root.ident, root.eqclass = (0,), (0,)
             res = _glom_fn(root, spec, **kw)
             out = {'out': 'ok', 'error': None}
@@ -467,6 +488,7 @@ def execute(tree, plan, caller_scope=None, hook=True, prebuilt=None, big_root=Fa
             out = {'out': 'err', 'error': e}
     finally:
         MULTILINE_FOR[0] = 0
+        NOTES[0] = False
         if hook:
             glom.core._verif_install(None)
     out.update(log=run.log, events=normalise(rec.events), spec=spec, index=index, prebuilt=(spec, run, index))
